@@ -39,6 +39,10 @@ def python_half(ctx, py: PyRepo):
         ctx.require(verdict != 'undecided', why)
         ctx.ob('subst-arm', f'python/{meth}/Instantiate', verdict == 'delegates', why, py.where('pattern', fn))
     simultaneity(ctx, py)
+    # Instantiate.instantiate merges only the entries of delta whose key is a metavariable of the body: `metavars()` deciding that
+    # is part of the instantiation algebra (a metavariable it loses is silently not instantiated) - shared with C12
+    from .c12 import metavars_arms
+    metavars_arms(ctx, py)
 
 
 def simultaneity(ctx, py: PyRepo):
